@@ -22,7 +22,7 @@ ASSUMPTIONS = ['layer order: defaults < type defaults < syntax defaults < global
 FLOORS = {'quick': {'config': 6000, 'expand': 2500, 'unknown-syntax': 4, 'immutability': 4000, 'multi-key': 6000},
           'thorough': {'config': 6000, 'expand': 2500, 'unknown-syntax': 4, 'immutability': 4000, 'multi-key': 400000}}
 NMULTI = {'quick': 300, 'thorough': 20000}
-REQUIRED_MONITORS = ['oracle:layer-order', 'oracle:expand-layer', 'oracle:layer-order-multi', 'oracle:expand-layer-multi', 'oracle:bystanders', 'oracle:builtin-digest', 'oracle:caller-digest']
+REQUIRED_MONITORS = ['oracle:layer-order', 'oracle:expand-layer', 'oracle:resolved-tables-are-copies', 'oracle:layer-order-multi', 'oracle:expand-layer-multi', 'oracle:bystanders', 'oracle:builtin-digest', 'oracle:caller-digest']
 
 SYN = {'markup': ['html', 'xml', 'xsl', 'jsx', 'js', 'pug', 'slim', 'haml', 'vue', 'svelte', 'xhtml', 'nosuch', 'my-syntax'],
        'stylesheet': ['css', 'sass', 'scss', 'less', 'sss', 'stylus', 'nosuch', 'my-syntax']}
@@ -118,7 +118,14 @@ def observe_expand(typ, kind, key, u, g):
         if kind == 'variables':
             out = emmet.expand('x-a{${%s}}' % key, u, g)
             m = re.search(r'x-a(?:>| )(.*?)(?:</x-a>)?$', out)
-            return m.group(1) if m else ('?' + out)
+            direct = m.group(1) if m else ('?' + out)
+            # the same variable used INSIDE a snippet (snippets are parsed with the resolved configuration as their options)
+            u2 = copy.deepcopy(u)
+            u2['snippets'] = dict(u2.get('snippets') or {}, vvs='x-a{${%s}}' % key)
+            out2 = emmet.expand('vvs', u2, g)
+            m2 = re.search(r'x-a(?:>| )(.*?)(?:</x-a>)?$', out2)
+            inside = m2.group(1) if m2 else ('?' + out2)
+            return direct if inside == direct else 'direct=%s | inside a snippet=%s' % (direct, inside)
     else:
         if (kind, key) == ('options', 'stylesheet.between'):
             out = emmet.expand('p10', u, g)
@@ -147,6 +154,28 @@ def forms_for(typ, syn):
         if typ == 'markup':
             f.append('bare')
     return f
+
+
+def alias_check(ctx, C, cfg, u, g, case):
+    """The resolved tables belong to the Config object: none of them may BE a built-in table or a dictionary of the caller (whoever
+    tunes cfg.options[...] in place - the repository's own tests do - would otherwise rewrite the defaults of the process)."""
+    ctx.mon('oracle:resolved-tables-are-copies')
+    sources = []
+    sc = getattr(C, 'SYNTAX_CONFIG', {}) or {}
+    for kind in ('options', 'snippets', 'variables'):
+        sources.append(('DEFAULT_CONFIG[%s]' % kind, C.DEFAULT_CONFIG.get(kind)))
+        for name, sect in sc.items():
+            sources.append(('SYNTAX_CONFIG[%s][%s]' % (name, kind), sect.get(kind)))
+        sources.append(('call config[%s]' % kind, u.get(kind)))
+        for name, sect in g.items():
+            sources.append(('global[%s][%s]' % (name, kind), sect.get(kind) if isinstance(sect, dict) else None))
+    sources.append(('DEFAULT_OPTIONS', C.DEFAULT_OPTIONS))
+    for kind in ('options', 'snippets', 'variables'):
+        tbl = getattr(cfg, kind)
+        for label, src in sources:
+            if src is not None and tbl is src:
+                ctx.violation('resolved-table-is-an-input-table', case, {'table': 'Config.' + kind, 'is': label})
+                return
 
 
 def run_combo(ctx, C, typ, syn, kind, key, vals, subset, orig_sc, can_patch, form='explicit'):
@@ -182,6 +211,7 @@ def run_combo(ctx, C, typ, syn, kind, key, vals, subset, orig_sc, can_patch, for
             ctx.violation('config-exception', case, {'exc': list(core.exc_site(r[1]))})
             return None
         cfg = r[1]
+        alias_check(ctx, C, cfg, u, g, case)
         got = getattr(cfg, kind).get(key, ABSENT)
         if got != exp:
             ctx.violation('wrong-layer', case, {'expected': exp, 'actual': got, 'where': 'Config.' + kind})
